@@ -4,10 +4,16 @@ C11 — the definition chosen for a nonterminal is the one for the target shell.
 `Spec.pick` is the statement written outright (spec@S ▸ plain ▸ built-in PATH/DIRECTORY ▸ any word;
 built-in table regenerated from check.rs on every run).  Proved here, for every grammar:
 definitions for other shells never influence the choice; a plain definition overrides the built-in
-meaning; a specialisation for the target shell wins over everything.  The check compares the real
-library's automaton and the four real scripts with `Spec.pick` on the whole definition table.
+meaning; a specialisation for the target shell wins over everything.  And for the model of the code
+(`Check.specialize` = check.rs `specialize_nonterminals` fed by parse.rs `get_specializations`, tied
+to the library exactly on every run): `choice_spec` — whenever the specialisation tables are accepted,
+the pass replaces *every* nonterminal reference of an expression (top level, inside a word, in a
+definition body — wherever it stands) by exactly what `Spec.pick` prescribes, whatever `used` flags
+and unused-bookkeeping it has accumulated on the way.  The check compares the real library's
+automaton and the four real scripts with `Spec.pick` on the whole definition table.
 -/
 import Complgen.Spec.Den
+import Complgen.Proofs.Choice
 namespace Complgen.Props.C11
 open Complgen Complgen.Spec
 
@@ -93,5 +99,35 @@ theorem undefined_is_builtin_or_any (sh : Shell) (g : Grammar) (name : String)
 /-- the built-in table (regenerated from check.rs) covers exactly PATH and DIRECTORY, for every shell -/
 theorem builtin_names : (Gen.builtinTable.map (·.1)).eraseDups = ["PATH", "DIRECTORY"] ∧
     Gen.builtinTable.length = 8 := by decide
+
+/-- **The model of the specialisation pass implements `Spec.pick` at every reference.** -/
+theorem choice_spec (g : Grammar) (sh : Shell) (specs : Check.AList Check.UserSpec) (fbs : Check.AList String)
+    (h : Check.getSpecializations g sh = .ok (specs, fbs)) (e : Expr) (b : Check.Book)
+    (hb : Check.SameCmds specs b) :
+    (Check.specialize sh fbs ((Check.plainDefs g).map (·.1)) e b).1 = Check.applyPick sh g e ∧
+    Check.SameCmds specs (Check.specialize sh fbs ((Check.plainDefs g).map (·.1)) e b).2 :=
+  Check.specialize_eq_applyPick g sh specs fbs h e b hb
+
+/-- the book the pass starts with satisfies the invariant -/
+theorem choice_spec_init (specs : Check.AList Check.UserSpec) (unused : Check.AList Span) :
+    Check.SameCmds specs ⟨specs, unused⟩ := fun _ => rfl
+
+/-- at a single reference: the chosen command with zsh's `compadd` flag, or the reference left for
+expansion / as "any word" -/
+theorem choice_at_reference (g : Grammar) (sh : Shell) (name : String) (l : Nat) (s : Span) :
+    Check.applyPick sh g (.nonterm name l s) =
+      match pick sh g name with
+      | .command c a => .cmd c a l s
+      | _ => .nonterm name l s := by
+  unfold Check.applyPick
+  cases pick sh g name <;> rfl
+
+/-- Non-vacuity: a grammar with `<X@bash>` and a plain `<X>` has accepted tables for bash. -/
+example :
+    let g : Grammar := [.call "cmd" default (.nonterm "X" 0 default),
+                        .defn "X" default (some ("bash", default)) (.cmd "echo b" false 0 default),
+                        .defn "X" default none (.cmd "echo p" false 0 default)]
+    (match Check.getSpecializations g .bash with | .ok _ => true | _ => false) = true := by
+  decide
 
 end Complgen.Props.C11
